@@ -174,8 +174,14 @@ def check_cf_interpolate(ctx):
 
 
 def run(ctx):
-    repo = ctx.repo
     check_cf_interpolate(ctx)
+    check_sed_interpolate(ctx)
+    check_variable(ctx)
+
+
+def check_sed_interpolate(ctx):
+    """SED.interpolate (requests as bare numbers and as quantities) and the single-aperture tables of SED.interpolate / interpolate_variable"""
+    repo = ctx.repo
     U, mJy, au = sym('unit:U'), sym('unit:mJy'), sym('unit:au')
     q, cap = sym('q', D), sym('cap', A)
     # ---------------- SED.interpolate
@@ -203,7 +209,18 @@ def run(ctx):
             opts_ = {k_: v_ for k_, v_ in kwargs.items() if k_ != 'axis'}        # the axis is part of the interpolant decided above; kind / bounds / fill change it
             ctx.expect(not opts_, 'AXIS', 'SED.interpolate interp1d options (%s)' % tag, loc(fs, node.lineno), 'scipy defaults', 'non-default options %s' % sorted(opts_), 'interp1d-options')
 
-    check_variable(ctx)
+    # single aperture: every requested radius gets the one tabulated flux of each wavelength, and nothing is refused
+    hs = H(single=True)
+    Is = Interp(repo, hs)
+    Is.axis_len[A] = 1
+    outs = Is.call(fs, [symarr('q', (D,), unit=num(1))], selfv=mks())
+    compare(ctx, 'CFG-7', 'SED.interpolate single-aperture table', loc(fs), outs, mk_fn('at', B(A, sym('flux', A, N)), P(Poly())), (N, D), vocab=VOCAB, fns=FNS,
+            findings=[f for f in Is.findings if f.kind == 'label-clash'], detail_ok='every requested radius gets the single tabulated flux of each wavelength')
+    Iv = Interp(repo, H(single=True))
+    Iv.axis_len[A] = 1
+    outv = Iv.call(ctx.fn(repo.func('sed.sed', 'SED.interpolate_variable')), [symarr('fw', ('w',), unit=num(1)), symarr('q', ('w',), unit=num(1))], selfv=mks())
+    compare(ctx, 'CFG-7', 'interpolate_variable single-aperture table', loc(fs), outv, mk_fn('at', B(A, sym('flux', A, N)), P(Poly())), (N,), vocab=VOCAB, fns=FNS,
+            findings=[f for f in Iv.findings if f.kind == 'label-clash'], detail_ok='the single tabulated flux of each wavelength')
 
 
 def variable_reference(k):
@@ -235,20 +252,30 @@ def variable_reference(k):
 expand_interp = alg.expand_interp
 
 
-def _same(facts, diff):
-    """is the difference zero - as it stands, or with the library's linear interpolation written out the way a hand-written one is (through searchsorted)"""
+def increasing_apertures(p):
+    """the table's apertures taken as stored in increasing order (C13 promises it): sorting them is then the identity"""
+    key = ('fn', 'argsort', ('L', A), ('B', A, sym('cap', A).key()))
+    return alg.rebuild(p, lambda a: Poly.atom(('fn', 'arange', ('L', A))) if a == key else None)
+
+
+def _same(facts, diff, increasing=True):
+    """is the difference zero - as it stands, or with the library's linear interpolation written out the way a hand-written one is (through searchsorted),
+    for tables stored in increasing order when the property promises that"""
     if alg.is_zero(facts.simplify(diff))[0]:
         return True
     _, fns_ = alg.leaf_syms(diff)
     if 'searchsorted' in fns_ and 'lininterp' in fns_:
         try:
-            return alg.is_zero(facts.simplify(alg.unfold_lininterp(diff)))[0]
+            d2 = alg.unfold_lininterp(diff)
+            if increasing:
+                d2 = increasing_apertures(d2)
+            return alg.is_zero(facts.simplify(d2))[0]
         except RecursionError:
             return False
     return False
 
 
-def check_variable(ctx):
+def check_variable(ctx, increasing=True):
     """The result of interpolate_variable is compared as a whole with the statement (for the clamp fraction the code uses, which must lie in [0.99, 1]).
     When that comparison is decided it covers the pairing of wavelengths and apertures, the interpolator's axis, the clamp and the diagonal; the
     piecewise rules (which look at how the code is written) run only when it is not, and may then only say undecided."""
@@ -278,7 +305,7 @@ def check_variable(ctx):
         hit = None
         for k in ks:
             ref, facts, parts = variable_reference(k)
-            if tuple(outv.dims) == (N,) and outv.mask is None and _same(facts, outv.poly - ref):
+            if tuple(outv.dims) == (N,) and outv.mask is None and _same(facts, outv.poly - ref, increasing):
                 hit = (k, parts)
                 break
         if hit is not None:
@@ -296,7 +323,17 @@ def check_variable(ctx):
             unit_findings(ctx, I, fv, 'interpolate_variable comparisons')
         else:
             ref, facts, parts = variable_reference(Fraction(999, 1000))
-            compare(ctx, 'CFG-7', 'interpolate_variable result', where_, outv, ref, (N,), facts, vocab=VOCAB | {'fw', 'wav'}, fns=FNS | {'value', 'exp10'})
+            _, fns_ = alg.leaf_syms(outv.poly)
+            if 'searchsorted' in fns_ and not increasing:
+                # a hand-written interpolation that searches the aperture table as it is stored, where nothing promises the order it is stored in: it is compared
+                # with the library's interpolation (which sorts the table itself) written out the same way; what is left is a real difference for tables
+                # stored in another order
+                outv = outv.with_(poly=alg.unfold_lininterp(outv.poly))
+                ref = alg.unfold_lininterp(ref)
+                compare(ctx, 'CFG-7', 'interpolate_variable result', where_, outv, ref, (N,), facts, vocab=VOCAB | {'fw', 'wav'}, fns=FNS | {'value', 'exp10', 'searchsorted', 'argsort', 'arange'},
+                        detail_ok='as the library interpolation, for any storage order of the aperture table')
+            else:
+                compare(ctx, 'CFG-7', 'interpolate_variable result', where_, outv, ref, (N,), facts, vocab=VOCAB | {'fw', 'wav'}, fns=FNS | {'value', 'exp10'})
             decided = any(o.rule == 'CFG-7' and o.instance == 'interpolate_variable result' and o.status == 'VIOLATION' for o in ctx.obs)
     if not decided:
         if bad_axes:
@@ -419,6 +456,7 @@ def variable_details(ctx, pre=None):
 CF = 'sedfitter/convolved_fluxes/convolved_fluxes.py'
 SE = 'sedfitter/sed/sed.py'
 MUST_FIRE = [
+    ('single-aperture SED tiled instead of repeated', [(SE, "return np.repeat(self.flux[0, :], len(apertures)).reshape(self.n_wav, len(apertures))", "return np.tile(self.flux[0, :], len(apertures)).reshape(self.n_wav, len(apertures))")]),
     ('aperture curve through np.interp without sorting the filters', [(SE, "        # Find wavelength order\n        order = np.argsort(wavelengths)\n\n        # Interpolate apertures vs wavelength\n        log10_ap_interp = interp1d(np.log10(wavelengths[order]), np.log10(apertures[order]), bounds_error=False, fill_value=np.nan)\n", ""), (SE, "        # Interpolate the apertures\n        apertures = 10. ** log10_ap_interp(np.log10(sed_wav))\n\n        # Extrapolate on either side\n        apertures[np.log10(sed_wav) < log10_ap_interp.x[0]] = 10. ** log10_ap_interp.y[0]\n        apertures[np.log10(sed_wav) > log10_ap_interp.x[-1]] = 10. ** log10_ap_interp.y[-1]\n", "        apertures = 10. ** np.interp(np.log10(sed_wav), np.log10(wavelengths), np.log10(apertures))\n")]),
     ('D21 reverted: clamped request converted back to the table unit before the bounds-checked look-up', [(CF, "new_apertures = np.clip(c.apertures.to(self.apertures.unit), self.apertures.min(), self.apertures.max())", "new_apertures = c.apertures.to(self.apertures.unit)")]),
     ('variable aperture: short-wavelength side held at the last filter aperture', [(SE, "apertures[np.log10(sed_wav) < log10_ap_interp.x[0]] = 10. ** log10_ap_interp.y[0]", "apertures[np.log10(sed_wav) < log10_ap_interp.x[0]] = 10. ** log10_ap_interp.y[-1]")]),
@@ -451,6 +489,7 @@ MUST_FIRE = [
                                                "        if np.any(apertures < sed_apertures.min()):\n            raise Exception(\"Aperture(s) requested too small\")\n\n        result = flux_interp(apertures)\n        apertures[apertures > sed_apertures.max()] = sed_apertures.max()\n        return result")]),
 ]
 MUST_SILENT = [
+    ('single-aperture SED repeated along a new axis', [(SE, "return np.repeat(self.flux[0, :], len(apertures)).reshape(self.n_wav, len(apertures))", "return np.repeat(self.flux[0, :, np.newaxis], len(apertures), axis=1)")]),
     ('aperture curve through np.interp on the sorted filters', [(SE, "        # Find wavelength order\n        order = np.argsort(wavelengths)\n\n        # Interpolate apertures vs wavelength\n        log10_ap_interp = interp1d(np.log10(wavelengths[order]), np.log10(apertures[order]), bounds_error=False, fill_value=np.nan)\n", "        order = np.argsort(wavelengths)\n"), (SE, "        # Interpolate the apertures\n        apertures = 10. ** log10_ap_interp(np.log10(sed_wav))\n\n        # Extrapolate on either side\n        apertures[np.log10(sed_wav) < log10_ap_interp.x[0]] = 10. ** log10_ap_interp.y[0]\n        apertures[np.log10(sed_wav) > log10_ap_interp.x[-1]] = 10. ** log10_ap_interp.y[-1]\n", "        apertures = 10. ** np.interp(np.log10(sed_wav), np.log10(wavelengths[order]), np.log10(apertures[order]))\n")]),
     ('interp1d left to sort the aperture curve itself', [(SE, "interp1d(np.log10(wavelengths[order]), np.log10(apertures[order]), bounds_error=False, fill_value=np.nan)", "interp1d(np.log10(wavelengths), np.log10(apertures), bounds_error=False, fill_value=np.nan)")]),
     ('bounds re-applied after the conversion with minimum/maximum', [(CF, "new_apertures = np.clip(c.apertures.to(self.apertures.unit), self.apertures.min(), self.apertures.max())", "new_apertures = np.maximum(np.minimum(c.apertures.to(self.apertures.unit), self.apertures.max()), self.apertures.min())")]),
